@@ -8,3 +8,19 @@
 #include "opentelemetry/trace/span_context.h"
 #include "opentelemetry/trace/trace_flags.h"
 #include "opentelemetry/trace/tracer.h"
+
+// The template members of Context (construction from / extension by a container of key-value pairs) have no instantiation in the
+// library itself; they are instantiated here, with the container type the API tests and documentation use, so that the rules see
+// their bodies.
+#include <map>
+#include <string>
+namespace verif_c10_driver
+{
+using Map = std::map<std::string, opentelemetry::context::ContextValue>;
+inline opentelemetry::context::Context Instantiate(Map &values, opentelemetry::context::Context &base)
+{
+  opentelemetry::context::Context fresh(values);
+  (void)fresh;
+  return base.SetValues(values);
+}
+}  // namespace verif_c10_driver
